@@ -337,7 +337,11 @@ void check_limits(Ctx& c) {
 // "default schedule is not deterministic" / "replay diverged".  The hook makes kCanon real (unmodelled) threads
 // take the cached worker-sized stacks and releases them in descending address order, so every execution starts
 // from the same cache order and worker i always gets the same stack.
-constexpr int kCanon = 3; // >= the largest pool size used
+// Only needed (and only done) for pools of >= 2 workers: T0 has its own stack size class, a single worker always gets
+// the only cached worker stack.  g_canon is set by the harness body (parameters are constant within a run) and is
+// in effect from the second warm-up execution in the parent on, i.e. for every explored execution.
+constexpr int kCanon = 4;
+int g_canon = 0; // number of worker-sized stacks to put in order
 pthread_mutex_t g_cmu = PTHREAD_MUTEX_INITIALIZER;
 pthread_cond_t g_ccv = PTHREAD_COND_INITIALIZER;
 int g_cready, g_cgo[kCanon];
@@ -354,7 +358,9 @@ void* canon_thread(void* p) {
   return nullptr;
 }
 void canon_stacks() {
-  pthread_t th[kCanon];
+  const int kCanon = g_canon; // shadows the capacity: number of threads used this time
+  if (kCanon < 2) return;
+  pthread_t th[4];
   g_cready = 0;
   for (int i = 0; i < kCanon; i++) g_cgo[i] = 0;
   for (int i = 0; i < kCanon; i++)
@@ -362,7 +368,7 @@ void canon_stacks() {
   pthread_mutex_lock(&g_cmu);
   while (g_cready < kCanon) pthread_cond_wait(&g_ccv, &g_cmu);
   pthread_mutex_unlock(&g_cmu);
-  int order[kCanon];
+  int order[4];
   for (int i = 0; i < kCanon; i++) order[i] = i;
   std::sort(order, order + kCanon, [](int a, int b) { return g_caddr[a] > g_caddr[b]; });
   for (int q = 0; q < kCanon; q++) {
@@ -378,6 +384,7 @@ mc::HookSetter g_hooks(nullptr, canon_stacks);
 
 MC_HARNESS(pipeline) {
   int prop = (int)P("prop", 27), n = (int)P("n", 1), items = (int)P("items", 2);
+  g_canon = n >= 2 ? (n > kCanon ? kCanon : n) : 0;
   // wildcards (explored exhaustively through mc::choose, cost 0): '*' in st = any of p/2/u; f<k>=-2 = any transform kind of
   // {value, OpResult dropping nothing, OpResult dropping item 1}; thr=-2 = any stage; at=-2 = any item
   std::string st = P.s("st", "pp");
